@@ -27,6 +27,18 @@ DEFAULT_FEATURES = {
     "queue_ops": False,
 }
 
+PROFILES = {
+    "core":  {},
+    "nest":  {"max_depth": 2, "p_sub": 0.55, "max_regions": 2, "max_states_per_region": 2},
+    "compl": {"completion": True},
+    "defer": {"defer": True, "completion": True},
+    "hist":  {"history": True, "p_sub": 0.5},
+    "block": {"blocking": True},
+    "rtc":   {"plans": True, "queue_ops": True, "completion": True},
+    "throw": {"throws": True, "plans": True, "completion": True},
+    "all":   {"completion": True, "defer": True, "history": True, "blocking": True},
+}
+
 class Gen:
     def __init__(self, rng, feat=None):
         self.rng = rng
@@ -108,10 +120,22 @@ class Gen:
                             r["trig"] = "none"
                             rows.insert(rng.randint(0, len(rows)), r)
         if f["defer"]:
+            def trig_events(rs):
+                return {r["trig"][1] for r in rs if r["trig"] not in ("any", "none")}
+            def machine_events(m):
+                from msmgen import walk, all_rows
+                return {e for _, mm in walk(m) for e in trig_events(all_rows(mm))}
             for i, st in enumerate(states):
                 if st["sub"] is None and st["kind"] == "simple" and rng.random() < 0.3:
-                    handled = {r["trig"][1] for r in rows if r["src"] == i and r["trig"] not in ("any", "none")}
-                    handled |= {r["trig"][1] for r in st["sirows"] if r["trig"] not in ("any", "none")}
+                    z = st["zone"]
+                    # documented limitation of back: the deferred event must not be handled by the same state,
+                    # nor anywhere in a sibling region (including submachines there), nor in the sm-internal table
+                    handled = trig_events([r for r in rows if r["src"] == i]) | trig_events(st["sirows"]) | trig_events(irows)
+                    for j, other in enumerate(states):
+                        if other["zone"] != z:
+                            handled |= trig_events([r for r in rows if r["src"] == j]) | trig_events(other["sirows"])
+                            if other["sub"] is not None:
+                                handled |= machine_events(other["sub"])
                     cand = [e for e in self.events if e not in handled]
                     if cand:
                         st["defers"] = rng.sample(cand, 1)
